@@ -64,6 +64,8 @@ func (e *SpecEnv) toTerm(v SVal) (Term, error) {
 			return x.Base, nil
 		}
 		return Term{}, fmt.Errorf("interior pointer used as a value")
+	case IfaceV:
+		return x.Pay, nil // identity abstraction of an interface value (payload id)
 	case SliceV:
 		if v.T != nil {
 			if sl, ok := v.T.Underlying().(*types.Slice); ok {
@@ -284,6 +286,7 @@ func (u *Unit) mapLoadValNoAssume(st *State, mt *types.Map, mref, k Term) Value 
 	}
 	terms := make([]Term, len(lfs))
 	for i, lf := range lfs {
+		u.m.markRef(u.mapValName(mt, lf.Path), lf.Kind)
 		comp := u.m.comp(st, u.mapValName(mt, lf.Path), ArrSort(SInt, ArrSort(ks, lf.Sort)))
 		terms[i] = Select(Select(comp, mref), k)
 	}
@@ -558,6 +561,39 @@ func (e *SpecEnv) callSpec(n SCall) (SVal, error) {
 			return SVal{}, err
 		}
 		return SVal{V: u.unboxNoAssume(iv.Pay, t), T: t}, nil
+	case "sentinel": // sentinel("pkg.ErrName"): an immutable package-level error value of a dependency
+		tn, ok := n.Args[0].(SStrLit)
+		if !ok {
+			return SVal{}, fmt.Errorf("sentinel needs a string")
+		}
+		dot := strings.LastIndex(tn.V, ".")
+		if dot < 0 {
+			return SVal{}, fmt.Errorf("sentinel(\"pkg.Name\")")
+		}
+		for _, p := range u.eng.prog.AllPackages() {
+			if p.Pkg.Name() == tn.V[:dot] || strings.HasSuffix(p.Pkg.Path(), tn.V[:dot]) {
+				if g, ok := p.Members[tn.V[dot+1:]].(*ssa.Global); ok {
+					if v, ok := u.globalConst(g, e.st); ok {
+						return SVal{V: v, T: g.Type().(*types.Pointer).Elem()}, nil
+					}
+				}
+			}
+		}
+		return SVal{}, fmt.Errorf("sentinel %s not found", tn.V)
+	case "deref": // deref(p): the value a pointer designates
+		v, err := e.eval(n.Args[0])
+		if err != nil {
+			return SVal{}, err
+		}
+		pv, ok := v.V.(PtrV)
+		if !ok || v.T == nil {
+			return SVal{}, fmt.Errorf("deref of non-pointer")
+		}
+		pt, ok := v.T.Underlying().(*types.Pointer)
+		if !ok {
+			return SVal{}, fmt.Errorf("deref of non-pointer type")
+		}
+		return SVal{V: u.loadNoAssume(e.st, pv), T: pt.Elem()}, nil
 	case "fresh": // fresh(p): object allocated during this call
 		v, err := e.eval(n.Args[0])
 		if err != nil {
@@ -694,6 +730,16 @@ func (u *Unit) ghostInit(name string) Term {
 func (u *Unit) specEnvForUnit(st, old *State, results []Value) *SpecEnv {
 	env := &SpecEnv{u: u, st: st, old: old, names: map[string]SVal{}}
 	u.bindParams(env, u.spec, u.fn, u.fn.Signature, u.params, results)
+	// captured variables of closures are visible by name (their current value)
+	for i, fv := range u.fn.FreeVars {
+		if i < len(u.freeVars) {
+			if pv, ok := u.freeVars[i].(PtrV); ok {
+				if _, taken := env.names[fv.Name()]; !taken {
+					env.names[fv.Name()] = SVal{V: u.loadNoAssume(st, pv), T: fv.Type().(*types.Pointer).Elem()}
+				}
+			}
+		}
+	}
 	return env
 }
 
